@@ -79,16 +79,18 @@ def moveObj (st : MoveSt) (p : ObjId × ObjId) : MoveSt :=
                         replace := st.replace ++ [(p.1, p.2)] }
   | none => st
 
-def moveStep (bookmarks : List Nat) (st : MoveSt) (p : ObjId × ObjId) : MoveSt :=
-  let st1 := moveObj st p
-  if p.1 ≠ p.2 then
-    { st1 with bm := renumberBookmarks bookmarks st1.bm p.1 p.2 }
-  else st1
+/-- since the fix of F-C10-a the move loop no longer touches the bookmarks -/
+def moveStep (_bookmarks : List Nat) (st : MoveSt) (p : ObjId × ObjId) : MoveSt := moveObj st p
+
+/-- `rename_bookmark_pages`: every bookmark target goes through the COMPLETE map, once -/
+def renameBkPages (replace : List (ObjId × ObjId)) (t : BkTable) : BkTable :=
+  t.map fun (i, b) => (i, { b with page := (lookupId replace b.page).getD b.page })
 
 /-- move all pairs, then re-insert the temporary map -/
 def movePass (bookmarks : List Nat) (os : Objects) (bm : BkTable) (pairs : List (ObjId × ObjId)) : MoveSt :=
   let st := pairs.foldl (moveStep bookmarks) ⟨os, [], [], bm⟩
-  { st with objects := st.tmp.foldl (fun acc kv => acc.insert kv.1 kv.2) st.objects }
+  { st with objects := st.tmp.foldl (fun acc kv => acc.insert kv.1 kv.2) st.objects,
+            bm := renameBkPages st.replace st.bm }
 
 /-- pairs of the page-order pass: k-th page in page order  ↦  (number of the k-th smallest page id, own generation) -/
 def pagePairs (pages : List ObjId) : Option (List (ObjId × ObjId)) :=
